@@ -177,8 +177,10 @@ namespace {
                     const uint32_t x = base | lo;
                     g_x_cur = x;
                     sweep_one( x );
-                    if ( __builtin_expect( pb::g_bad, 0 ))
+                    if ( __builtin_expect( pb::g_bad, 0 )) {
+                        st.evaluations += n + lo + 1;
                         return report32( st, x );
+                    }
                 }
                 n += 65536;
             }
@@ -189,9 +191,11 @@ namespace {
                     const uint32_t x = base | uint32_t( s0 + splitmix( hs ) % span );
                     g_x_cur = x;
                     sweep_one( x );
-                    if ( __builtin_expect( pb::g_bad, 0 ))
-                        return report32( st, x );
                     ++n;
+                    if ( __builtin_expect( pb::g_bad, 0 )) {
+                        st.evaluations += n;
+                        return report32( st, x );
+                    }
                 }
             }
             if ( blk == 0 )
